@@ -9,7 +9,7 @@ SPEC = {
             "stable-privacy, EUI-64 pattern, none) x exclusion (deprecated, temporary, tentative, IPv4), one address with two flag sets; "
             "random lists up to length 40 (class boundaries fbff/fc00/fdff/fe00/fe7f/fe80/febf/fec0/feff/ff00, ff:fe / ff:fd / fe:fe "
             "byte patterns, IPv4-mapped addresses of every IPv4 class, same address with other flags); random static lists incl. one equal "
-            "to the chosen address; listing failure / unprepared. config driver: every sequence of length <= 3 / <= 4 over 14 server "
+            "to the chosen address; listing failure / unprepared. config driver: every sequence of length <= 3 / <= 4 over 15 server "
             "strings (:: in two spellings, one address in two spellings, IPv4, IPv4-mapped, garbage, a prefix, a zoned address), omitted list, random lists "
             "up to 12 servers; each accepted plugin is applied to an address list. Non-trivial = at least two listed addresses / servers "
             "or a failing source; distinct by canonical input.",
